@@ -202,7 +202,7 @@ def drive_api(item):
         os.remove(hpath)
     config = {"use_spec_hashes": bool(scn["hash"])}
     obs = {"has_status": False, "has_subs": False, "has_dry": False, "status": {}, "subs": [], "dry": [], "err": "",
-           "snap": ["", "", ""], "mut_status": [], "mut_dry": [], "trk_after": {}}
+           "snap": ["", "", ""], "filt": [], "mut_status": [], "mut_dry": [], "trk_after": {}}
     try:
         graph = Graph.from_targets({t.name: t for t in targets}, fs)
         backend = TrackingBackend(wd, name="rec", ops=RecOps(states, 500))
